@@ -84,6 +84,9 @@ def coq_case(c):
         return f"(KNamed {cstr(c['name'])} {cperiod(c['p'])})"
     if op == "ioffset":
         return f"(KInstOffset {cdate(c['c'])} {cz(c['n'])} {UCOQ[c['u']]})"
+    if op in ("pfirstof", "plastof"):
+        eu = c["p"][0] if c["u"] is None else c["u"]
+        return f"({'KFirstOf' if op == 'pfirstof' else 'KLastOf'} {cdate(c['p'][1])} {UCOQ[eu]})"
     if op == "firstof":
         return f"(KFirstOf {cdate(c['c'])} {UCOQ[c['u']]})"
     if op == "lastof":
@@ -97,8 +100,26 @@ def coq_case(c):
 
 # ---- implementation driver -------------------------------------------------------------
 
+def spell(u, sp):
+    """The unit in one of its accepted spellings: DateUnit member (sp 0) or the plain str it equals (sp 1).
+    DateUnit is a StrEnum and the API documents `unit (str)`; the model case is the same for both."""
+    return UNITS[u] if not sp else str(UNITS[u].value)
+
+
 def run_impl(c):
     op = c["op"]
+    sp = c.get("sp", 0)
+    if op in ("pfirstof", "plastof"):
+        # Period.offset("first-of" / "last-of", unit): same unit and size, start moved by Instant.offset;
+        # observed as that start (None when the code has no such instant: NotImplementedError)
+        p = mk_period(c["p"])
+        try:
+            r = p.offset("first-of" if op == "pfirstof" else "last-of", None if c["u"] is None else spell(c["u"], sp))
+        except NotImplementedError:
+            return None
+        if r.unit != p.unit or r.size != p.size:
+            raise RuntimeError(f"keyword offset changed unit or size: {r!r}")
+        return enc_inst(r.start)
     if op == "stop":
         return enc_inst(mk_period(c["p"]).stop)
     if op == "days":
@@ -113,18 +134,18 @@ def run_impl(c):
         r = mk_period(c["p"]).intersection(a, b)
         return None if r is None else enc_period(r)
     if op == "sub":
-        return [enc_period(q) for q in mk_period(c["p"]).get_subperiods(UNITS[c["u"]])]
+        return [enc_period(q) for q in mk_period(c["p"]).get_subperiods(spell(c["u"], sp))]
     if op == "offset":
-        u = None if c["u"] is None else UNITS[c["u"]]
+        u = None if c["u"] is None else spell(c["u"], sp)
         return enc_period(mk_period(c["p"]).offset(c["n"], u))
     if op == "named":
         return enc_period(getattr(mk_period(c["p"]), c["name"]))
     if op == "ioffset":
-        return enc_inst(Instant(tuple(c["c"])).offset(c["n"], UNITS[c["u"]]))
+        return enc_inst(Instant(tuple(c["c"])).offset(c["n"], spell(c["u"], sp)))
     if op == "firstof":
-        return enc_inst(Instant(tuple(c["c"])).offset("first-of", UNITS[c["u"]]))
+        return enc_inst(Instant(tuple(c["c"])).offset("first-of", spell(c["u"], sp)))
     if op == "lastof":
-        return enc_inst(Instant(tuple(c["c"])).offset("last-of", UNITS[c["u"]]))
+        return enc_inst(Instant(tuple(c["c"])).offset("last-of", spell(c["u"], sp)))
     if op == "isocal":
         return list(datetime.date(*c["c"]).isocalendar())
     if op == "le":
@@ -280,11 +301,27 @@ def oracle(c, o):
         if ou in (3, 4) and exp.day != d.day:
             return None
         try:
-            back = mk_period(o).offset(-k, None if c["u"] is None else UNITS[c["u"]])
+            # the way back spells the unit the other way round: same unit, same shift
+            back = mk_period(o).offset(-k, None if c["u"] is None else spell(c["u"], 1 - c.get("sp", 0)))
         except Exception as e:  # noqa: BLE001
             return f"offset: inverse shift raised {e}"
         if enc_period(back) != [u, list(s), n]:
             return f"offset: {c['p']} shifted by {k} then {-k} gives {enc_period(back)}"
+    elif op in ("pfirstof", "plastof", "firstof", "lastof"):
+        s0, eu = (c["c"], c["u"]) if op in ("firstof", "lastof") else (c["p"][1], c["p"][0] if c["u"] is None else c["u"])
+        d = D(s0)
+        first = op in ("pfirstof", "firstof")
+        if eu == 4:
+            exp = datetime.date(d.year, 1, 1) if first else datetime.date(d.year, 12, 31)
+        elif eu == 3:
+            exp = datetime.date(d.year, d.month, 1 if first else calendar.monthrange(d.year, d.month)[1])
+        elif eu == 1:
+            exp = d - datetime.timedelta(d.isoweekday() - 1) if first else d + datetime.timedelta(7 - d.isoweekday())
+        else:
+            exp = None   # day / weekday: no such instant
+        got = None if o is None else list(o)
+        if got != (None if exp is None else [exp.year, exp.month, exp.day]):
+            return f"{op}: {'first' if first else 'last'} day of the {UCOQ[eu]} of {s0} should be {exp}, got {o}"
     elif op == "ioffset":
         if c["u"] != 5:
             exp = shifted(D(c["c"]), c["u"], c["n"])
@@ -486,6 +523,20 @@ def generate(rng, tier):
                 p = [4, c, k]
                 cases += [{"op": "stop", "p": p}, {"op": "days", "p": p}, {"op": "size", "which": 2, "p": p},
                           {"op": "stop", "p": [3, c, 12 * k]}, {"op": "size", "which": 2, "p": [3, c, 12 * k]}]
+    # Period.offset("first-of" / "last-of", unit) on a sample of the periods
+    for i, p in enumerate(plist[::3]):
+        if p[0] == 5:
+            continue
+        for op in ("pfirstof", "plastof"):
+            cases.append({"op": op, "p": p, "u": None if i % 4 == 0 else (i // 4) % 5})
+    # every API taking a unit is called with the unit in each accepted spelling in turn (DateUnit member /
+    # the plain str it equals); the model case is the same, only the implementation-side call differs
+    turn = {}
+    for c in cases:
+        if c["op"] in ("offset", "ioffset", "firstof", "lastof", "sub", "pfirstof", "plastof") and c.get("u") is not None:
+            k = (c["op"], c["u"])
+            turn[k] = turn.get(k, 0) + 1
+            c["sp"] = turn[k] % 2
     if tier == "thorough":
         # exhaustive sweep: every start date of the 400-year cycle 2000..2399, stop + isocalendar
         d = datetime.date(2000, 1, 1)
